@@ -9,3 +9,6 @@ open Emboss.View
 #print axioms C01_prefix_monotone_counterexample
 #print axioms C01_size_covers_present_fields
 #print axioms C01_ok_monotone_partial
+#print axioms C01_ok_monotone_arrays_partial
+#print axioms C01_complete_fields_identical_partial
+#print axioms C01_sizeCovers_of_plain
